@@ -77,14 +77,20 @@ def r_lookup_table(ctx: Ctx, rule: str):
         idp = params[1] if params and params[0] == "self" else params[0]
         P = ctx.eff.paths(f)
 
+        V = ctx.vals
+        cur: List[Optional[Node]] = [None]  # the step being interpreted (frames of spliced helpers have their own names)
+
         def reg(e) -> Optional[str]:
-            p = P.of(e)
+            p = ctx.path_at(cur[0], e) if cur[0] is not None else P.of(e)
             if p is None or "[" in p or p.count(".") != 1:
                 return None
             return REG_OF_FIELD.get(field_of(p))
 
         def is_id(e) -> bool:
-            return isinstance(e, ast.Name) and e.id == idp
+            if cur[0] is None:
+                return isinstance(e, ast.Name) and e.id == idp
+            fr, env, leaf = V.trace(cur[0].func, cur[0].env, e)
+            return fr is f and env is None and isinstance(leaf, ast.Name) and leaf.id == idp
 
         def truth(e: ast.AST, loc: str) -> Optional[bool]:
             if isinstance(e, ast.UnaryOp) and isinstance(e.op, ast.Not):
@@ -102,9 +108,15 @@ def r_lookup_table(ctx: Ctx, rule: str):
                 v = truth(e.left, loc)
                 if v is not None:
                     return (not v) if isinstance(e.ops[0], (ast.Is, ast.Eq)) else v
+            if isinstance(e, ast.Name) and cur[0] is not None:
+                # a once-bound flag: `found = self._tasks_cancelled.get(task_id)`
+                r = V.resolve(cur[0].func, e)
+                if r is not e:
+                    return truth(r, loc)
             return None
 
         def transfer(ai: AbsInt, n: Node, lab: Label, loc):
+            cur[0] = n
             if n.op == "subscript" and is_id(n.ast.slice):
                 r = reg(n.ast.value)
                 if r is not None:
@@ -137,8 +149,9 @@ def r_lookup_table(ctx: Ctx, rule: str):
             for e in ai.events:
                 rep.ob(rule, e.msg, False, node=e.node)
         # the value returned is the running-registry entry for that id
-        for r in ctx.distinct_sites(ctx.nodes(f, lambda n: n.op == "return" and n.ast.value is not None)):
+        for r in ctx.distinct_sites(ctx.nodes(f, lambda n: n.op == "return" and n.func is f and n.ast.value is not None)):
             v = r.ast.value
+            cur[0] = r
             ok = isinstance(v, ast.Subscript) and P.of(v.value) == RUN and is_id(v.slice)
             if not ok and isinstance(v, ast.Name):
                 sc = ctx.an.scope(f)
@@ -171,7 +184,11 @@ def r_who_cancel(ctx: Ctx, rule: str):
             if isinstance(recv, ast.Name) and c.loops:
                 lp = c.loops[-1]
                 if isinstance(lp, ast.For) and isinstance(lp.target, ast.Name) and lp.target.id == recv.id and isinstance(lp.iter, ast.Name):
-                    src = lp.iter.id
+                    from .shared import _caller_frame
+
+                    fr, fenv, it = _caller_frame(ctx, c.func, c.env, lp.iter)
+                    if fr is f and fenv is None and isinstance(it, ast.Name):
+                        src = it.id
             if src is not None and src in sc.defs:
                 ok = _collects_all_lookups(ctx, f, src, varargs)
                 head = [h for h in ctx.nodes(f, lambda n: n.op == "iter" and n.ast is c.loops[-1])]
@@ -185,7 +202,7 @@ def r_who_cancel(ctx: Ctx, rule: str):
 def _collects_all_lookups(ctx: Ctx, f: FuncInfo, name: str, varargs: Optional[str]) -> Optional[bool]:
     sc = ctx.an.scope(f)
     hows = sc.defs.get(name, [])
-    vals = [h[1] for h in hows if h[0] == "assign"]
+    vals = [h[1] for h in hows if h[0] == "assign"] + [h[2] for h in hows if h[0] == "ann"]
     if len(vals) != 1:
         return None
     v = vals[0]
@@ -307,11 +324,15 @@ def r_group_helper(ctx: Ctx, rule: str):
         rep.floor(rule, "member cancel steps", len(ctx.distinct_sites(members)), 1)
         for c in ctx.distinct_sites(members):
             rep.ob(rule, "spawners are cancelled before the first member task (no new member can start in between)", dominated_by_completion(g, meta, c), node=c)
-            recv = c.ast.func.value
+            recv = ctx.vals.resolve(c.func, c.ast.func.value)
             P = ctx.eff.paths(f)
-            ok = isinstance(recv, ast.Subscript) and P.of(recv.value) == RUN
+            ok = isinstance(recv, ast.Subscript) and ctx.path_at(c, recv.value) == RUN
             key = recv.slice if isinstance(recv, ast.Subscript) else None
             key_ok = False
+            if isinstance(key, ast.Name) and c.func is f:
+                rk = ctx.vals.resolve(f, key)
+                if isinstance(rk, ast.Call):
+                    key = rk
             if isinstance(key, ast.Call) and isinstance(key.func, ast.Attribute) and key.func.attr == "pop" and not key.args:
                 key_ok = expr_role_reg(ctx, f, key.func.value)
             elif isinstance(key, ast.Name):
@@ -356,11 +377,42 @@ def r_group_helper(ctx: Ctx, rule: str):
                     rep.ob(rule, "every spawner of the group is cancelled", full, node=c, detail=why)
         moved = ctx.nodes(f, lambda n: any(e.kind == "insert" and e.path == META_CAN for e in ctx.eff.of_node(n)))
         for p in ctx.distinct_sites(pops):
-            after = reach([s for s, lab in p.succ if lab[0] in NORMAL_KINDS])
-            ok = bool(moved) and g.exit not in reach([s for s, lab in p.succ if lab[0] in NORMAL_KINDS], avoid=set(moved))
+            # `x = TABLE.pop(key, None)` followed by a test of x: on the branch where x is None nothing was removed
+            tgt = None
+            st_ = p.stmt
+            if isinstance(st_, ast.Assign) and len(st_.targets) == 1 and isinstance(st_.targets[0], ast.Name) and st_.value is p.ast and len(p.ast.args) == 2 \
+                    and isinstance(p.ast.args[1], ast.Constant) and p.ast.args[1].value is None:
+                tgt = st_.targets[0].id
+
+            def removed_something(a: Node, b: Node, lab: Label, tgt=tgt) -> bool:
+                if lab[0] not in NORMAL_KINDS:
+                    return False
+                if tgt is not None and a.op == "test" and lab[0] in ("T", "F") and a.func is p.func:
+                    v = _none_test(a.ast, tgt)
+                    if v is not None and (lab[0] == "T") == v:
+                        return False
+                return True
+
+            ok = bool(moved) and g.exit not in reach([s for s, lab in p.succ if lab[0] in NORMAL_KINDS], removed_something, avoid=set(moved))
             rep.ob(rule, "the cancelled spawners are remembered in the cancelled-spawner set (gather_and_close/flush wait for them)", ok, node=p)
         rexits = [x for x in g.raise_exits.values() if x.pred]
         rep.ob(rule, "a group without spawners is not an error", not rexits, func=f, construct="raising exits")
+
+
+def _none_test(e: ast.AST, name: str) -> Optional[bool]:
+    """True if the test holds exactly when `name` is None / empty, False if it holds when it is not, else None."""
+    if isinstance(e, ast.UnaryOp) and isinstance(e.op, ast.Not):
+        v = _none_test(e.operand, name)
+        return None if v is None else not v
+    if isinstance(e, ast.Name) and e.id == name:
+        return False
+    if isinstance(e, ast.Compare) and len(e.ops) == 1 and isinstance(e.left, ast.Name) and e.left.id == name and isinstance(e.comparators[0], ast.Constant) \
+            and e.comparators[0].value is None:
+        if isinstance(e.ops[0], (ast.Is, ast.Eq)):
+            return True
+        if isinstance(e.ops[0], (ast.IsNot, ast.NotEq)):
+            return False
+    return None
 
 
 def expr_role_reg(ctx: Ctx, f: FuncInfo, e: Optional[ast.AST]) -> bool:
